@@ -403,5 +403,5 @@ func gen(t *rapid.T) Case {
 }
 
 func TestHTTP(t *testing.T) {
-	vfrun.Run(t, vfrun.Prop[Case]{Property: "C09", Name: "TestHTTP", Gen: gen, Check: check}, vfrun.N(20000, 600000))
+	vfrun.Run(t, vfrun.Prop[Case]{Property: "C09", Name: "TestHTTP", Gen: gen, Check: check}, vfrun.N(20000, 4000000))
 }
